@@ -1,5 +1,7 @@
 CONSTANTS
   Dev = {"D_extra_rrset_ignored"}
+  AnchorForms = {"dnskey"}
+  Cfgs = {"default"}
   MaxRuns = 1
   EntQKinds = {"positive", "nxdomain", "ds"}
   Budget = 1
